@@ -7,6 +7,12 @@ def CELL(reads: A[float, 3], r: int, j: int, a: int) -> float:
     return ite(isnan(reads[r, j, a]), 1.0, reads[r, j, a])
 
 
+@spec_inline
+def READSOK(reads: A[xfloat, 3], n: int, N: int, NA: int) -> bool:
+    """every cell of the read tensor is a probability or NaN (missing call)"""
+    return forall(0, n, lambda r: forall(0, N, lambda j: forall(0, NA, lambda a: not isninf(reads[r, j, a]) and (isnan(reads[r, j, a]) or reads[r, j, a] >= 0))))
+
+
 @spec
 def RHP(reads: A[float, 3], G: A[int, 2], r: int, h: int, j: int) -> float:
     """product over SNVs j' < j of CELL(r, j', G[h, j'])"""
@@ -51,7 +57,7 @@ def log_likelihood(reads: A[f8, 3], genotype: A[i1, 2], read_counts: Opt[A[i8, 1
     # alleles index the last axis of the read tensor
     requires(forall(0, len(genotype), lambda h: forall(0, genotype.shape[1], lambda j: 0 <= genotype[h, j] and genotype[h, j] < reads.shape[2])))
     # cells are probabilities or NaN (missing call)
-    requires(forall(lambda r, j, a: not isninf(reads[r, j, a]) and (isnan(reads[r, j, a]) or reads[r, j, a] >= 0)))
+    requires(READSOK(reads, len(reads), reads.shape[1], reads.shape[2]))
     # a zero count must not meet an impossible read (numpy: 0 * -inf = NaN)
     requires(implies(read_counts is not None, forall(0, len(reads), lambda r: read_counts[r] >= 0 and implies(read_counts[r] == 0, RP(reads, genotype, r, len(genotype), genotype.shape[1], len(genotype)) > 0))))
     ensures(result == LLK(reads, ones_if_none(read_counts), genotype, len(genotype), genotype.shape[1], len(reads)))
@@ -111,7 +117,7 @@ def log_likelihood_structural_change(reads: A[f8, 3], genotype: A[i1, 2], haplot
     requires(implies(interval is not None, len(interval) == 2 and 0 <= interval[0] and interval[0] <= interval[1] and interval[1] <= genotype.shape[1]))
     requires(implies(read_counts is not None, len(read_counts) == len(reads)))
     requires(forall(0, len(genotype), lambda h: forall(0, genotype.shape[1], lambda j: 0 <= genotype[h, j] and genotype[h, j] < reads.shape[2])))
-    requires(forall(lambda r, j, a: not isninf(reads[r, j, a]) and (isnan(reads[r, j, a]) or reads[r, j, a] >= 0)))
+    requires(READSOK(reads, len(reads), reads.shape[1], reads.shape[2]))
     requires(implies(read_counts is not None, forall(0, len(reads), lambda r: read_counts[r] >= 0 and implies(read_counts[r] == 0, RP(reads, GP, r, len(genotype), genotype.shape[1], len(genotype)) > 0))))
     # the likelihood of the proposal equals the likelihood of the rearranged genotype
     ensures(result == LLK(reads, ones_if_none(read_counts), GP, len(genotype), genotype.shape[1], len(reads)))
